@@ -311,25 +311,29 @@ def extract_tuples(stdout: str, tag: str):
     head = re.compile(r'^<<\s*"' + re.escape(tag) + '"')
     lines = stdout.split('\n')
     i, n = 0, len(lines)
+    texts = []
     while i < n:
         ln = lines[i]
         if ln.startswith('<<') and head.match(ln):
             j = i + 1
             while j < n and lines[j][:1] in (' ', '\t'):
                 j += 1
-            text = ln if j == i + 1 else '\n'.join(lines[i:j])
+            texts.append(ln if j == i + 1 else '\n'.join(lines[i:j]))
             i = j
-            try:
-                yield parse_tla_fast(text)
-                continue
-            except Exception:
-                pass
-            try:
-                yield parse_tla(text)
-            except Exception as e:
-                raise MachineryError(f'unparsable TLC output near {text[:160]!r}: {e}')
         else:
             i += 1
+    # TLC workers print in a nondeterministic order: sort, so that a check is a function of VERIF_SEED
+    texts.sort()
+    for text in texts:
+        try:
+            yield parse_tla_fast(text)
+            continue
+        except Exception:
+            pass
+        try:
+            yield parse_tla(text)
+        except Exception as e:
+            raise MachineryError(f'unparsable TLC output near {text[:160]!r}: {e}')
 
 
 # --------------------------------------------------------------------------- TLC
